@@ -178,7 +178,6 @@ package expressions
 // them moves up by two - nothing else changes (this is the splice the precedence argument rests on).
 //@ func (*ParserT).foldAst [C06]
 //@   check index, slice
-//@   requires tree != nil
 //@   modifies tree.ast, elems(tree.ast)
 //@   inst 2
 //@   ensures (result == nil) == old(0 < tree.astPos && tree.astPos < len(tree.ast) - 1)
@@ -196,18 +195,15 @@ package expressions
 
 //@ func (*ParserT).prevSymbol [C06]
 //@   check none
-//@   requires tree != nil
 //@   modifies nothing
 //@   ensures result == ite(tree.astPos - 1 < 0, nil, tree.ast[tree.astPos - 1])
 //@ func (*ParserT).nextSymbol [C06]
 //@   check none
-//@   requires tree != nil
 //@   modifies nothing
 //@   ensures result == ite(tree.astPos + 1 >= len(tree.ast), nil, tree.ast[tree.astPos + 1])
 
 //@ func (*ParserT).getLeftAndRightSymbols [C06]
 //@   check none
-//@   requires tree != nil && tree.astPos <= len(tree.ast)
 //@   modifies nothing
 //@   ensures imp(result2 == nil, 0 < tree.astPos && tree.astPos + 1 < len(tree.ast) && result == tree.ast[tree.astPos - 1] && result1 == tree.ast[tree.astPos + 1] && result != nil && result1 != nil)
 
